@@ -83,6 +83,9 @@ func Swarm(seed uint64, enable [rt.NumKinds]bool) [rt.NumKinds]uint32 {
 	if SwarmPCT(seed) && b[rt.KGap] > 3000 {
 		b[rt.KGap] = 3000 // PCT: few priority change points per run
 	}
+	if enable[rt.KStall] {
+		b[rt.KStall] = [...]uint32{0, 0, 2000, 10000}[next()%4]
+	}
 	if enable[rt.KTimeSkip] {
 		b[rt.KTimeSkip] = [...]uint32{0, 0, 300, 2000}[next()%4]
 	}
